@@ -76,11 +76,11 @@ Proof.
   - (* reader *)
     destruct (s_limit s =? bb_len (s_buf s)) eqn:E1; [lia|].
     assert (kn && overflow_guard c s (blen d) = false) as ->.
-    { unfold overflow_guard, max_int64. destruct kn, (c_dir c); cbn; try reflexivity; lia. }
-    assert (kn && (bb_len (s_buf s) + blen d >=? s_limit s) = false) as -> by (destruct kn; cbn; lia).
+    { unfold overflow_guard, max_int64. destruct kn, (c_dir c); cbn [andb]; try reflexivity; lia. }
+    assert (kn && (bb_len (s_buf s) + blen d >=? s_limit s) = false) as -> by (destruct kn; cbn [andb]; lia).
     cbn [negb andb].
     set (n := if kn && true then blen d else s_limit s - bb_len (s_buf s)).
-    assert (Hn1 : blen d <= n) by (subst n; destruct kn; cbn; lia).
+    assert (Hn1 : blen d <= n) by (subst n; destruct kn; cbn [andb]; lia).
     unfold bb_copyN.
     destruct (bb_copy_loop_ok (c_opt c) rs (copy_bufsize n) (copy_bufsize_pos n) (S (length d)) (s_buf s) d n 0 Hi)
       as (b' & Hcp & Hc & Hlen & Hi'); [lia | lia |].
